@@ -130,9 +130,12 @@ inline Layout walk(const Oct &in, const std::vector<std::string> &names = std::v
 				if (a == 1 || a == 2) ok = walk_mpis(b, q, len, 1, "pkesk", base, L);
 				else if (a == 16) ok = walk_mpis(b, q, len, 2, "pkesk", base, L);
 				else if (a == 18) { size_t q0 = q; ok = walk_mpis(b, q, len, 1, "pkesk", base, L);
+					// the first octet of the ephemeral key is the point-format octet (0x04 / 0x40); libgcrypt also takes a native point
+					// without it: same point, same shared secret -> framing of the value, judged by content only
+					if (ok && q - q0 > 3) { L.r.back().off += 1; L.r.back().len -= 1; L.add(base + q0 + 2, 1, "pkesk.point_format"); }
 					// native X25519 point (0x40 || 32 octets, little endian): RFC 7748 section 5 makes every receiver ignore the
 					// most significant bit of the last octet -> that octet gets its own region (see c20_core.hh: format_ignored)
-					if (ok && q - q0 == 2 + 33 && b[q0 + 2] == 0x40) { L.r.back().len -= 1; L.add(base + q - 1, 1, "pkesk.x25519_last_octet"); }
+					if (ok && q - q0 == 2 + 33 && b[q0 + 2] == 0x40) { L.r[L.r.size() - 2].len -= 1; L.add(base + q - 1, 1, "pkesk.x25519_last_octet"); }
 					if (ok && q < len) { L.add(base + q, 1, "pkesk.wraplen"); L.add(base + q + 1, len - q - 1, "pkesk.wrapped"); q = len; } }
 				else ok = false;
 			}
